@@ -174,4 +174,49 @@ for n, body in legal.items():
 w("types/aliased-import.tsx", 'import { defineComponent as dc, defineComponent } from "vue";\nimport * as V from "vue";\ndc((p: { a: 1 }) => {});\nV.defineComponent((p: { a: 1 }) => {});\ndefineComponent((p: { a: 1 }) => {});', '{"resolveType":true}')
 w("types/not-vue.tsx", 'import { defineComponent } from "other";\ntype A = A;\ndefineComponent((p: A) => {});\nconst x = <div>{1}</div>;', '{"resolveType":true}')
 w("types/no-resolve.tsx", hdr + "type A = A;\nconst C = defineComponent((p: A) => () => <div>{p}</div>);", '{"resolveType":false,"optimize":true}')
+
+# ---- C2. every position a type reference can occupy x every kind of cycle (one defineComponent call per
+# position, so that each is resolved on its own), as the props type itself and nested in a member
+cycles = {
+    "self": ("type T = T;", "T"),
+    "mutual": ("type T = U; type U = T;", "T"),
+    "three": ("type T = U; type U = V; type V = T;", "T"),
+    "iface-self": ("interface T extends T {}", "T"),
+    "iface-mutual": ("interface T extends U { a: 1 } interface U extends T { b: 2 }", "T"),
+    "iface-alias": ("interface T extends U {} type U = T;", "T"),
+    "branch-union": ("type T = T | T;", "T"),
+    "branch-inter": ("type T = { a: string } & T & T;", "T"),
+    "branch-extends": ("interface T extends U, U {} interface U extends T, T {}", "T"),
+    "branch-keys": ("type T = 'a' | T | T;", "T"),
+    "member-indexed": ("type T = { x: T['x'] };", "T"),
+    "indexed-self": ("type T = T['x'];", "T"),
+    "paren": ("type T = (T);", "T"),
+    "partial": ("type T = Partial<T>;", "T"),
+    "via-pick": ("type T = Pick<T, 'a'> & { a: 1 };", "T"),
+    "nonnullable": ("type T = NonNullable<T>;", "T"),
+    "tuple-optional": ("type T = [T?];", "T"),
+    "array": ("type T = T[];", "T"),
+}
+positions = [
+    "{T}", "({T})", "{T} | string", "{T} & { q: 1 }", "string | {T} | {T}", "{T}[]", "[{T}]", "[{T}?]", "Array<{T}>",
+    "{T}['k']", "{T}[string]", "{T}[number]", "{T}[K]", "{T}['k' | 'j']", "O[{T}]", "O[{T} | 'a']", "{T}['k']['j']", "({T})['k']",
+    "Partial<{T}>", "Required<{T}>", "Readonly<{T}>", "Pick<{T}, 'a'>", "Omit<{T}, 'a'>", "Pick<O, {T}>", "Omit<O, {T}>", "Pick<{T}, {T}>",
+    "NonNullable<{T}>", "Exclude<{T}, null>", "Extract<string, {T}>", "Uppercase<{T}>", "Record<{T}, {T}>", "Parameters<{T}>", "Unknown<{T}>",
+    "{ m: {T} }", "{ m: {T}['k'] }", "{ m?: ({T}) }", "{ m: { n: {T} } }", "{ [k: string]: {T} }", "{ (e: {T}): void }", "(e: {T}) => void",
+    "typeof {T}", "keyof {T}",
+]
+pre = "type K = 'a' | 'b'; type O = { a: string; b?: number };\n"
+for cn, (decl, name) in cycles.items():
+    top = "\n".join(f"const C{i} = defineComponent((p: {pos.replace('{T}', name)}) => {{}});" for i, pos in enumerate(positions))
+    nested = "\n".join(f"const C{i} = defineComponent((p: {{ z: {pos.replace('{T}', name)}; ok: string }}) => {{}});" for i, pos in enumerate(positions))
+    emits = "\n".join(f"const C{i} = defineComponent((p: {{}}, c: SetupContext<{pos.replace('{T}', name)}>) => {{}});" for i, pos in enumerate(positions))
+    dflt = "\n".join(f"const C{i} = defineComponent((p: {pos.replace('{T}', name)} = dyn) => {{}});" for i, pos in enumerate(positions[:12]))
+    w(f"types-cyc-grid/{cn}.top.tsx", hdr + pre + decl + "\n" + top, '{"resolveType":true}')
+    w(f"types-cyc-grid/{cn}.nested.tsx", hdr + pre + decl + "\n" + nested, '{"resolveType":true}')
+    w(f"types-cyc-grid/{cn}.emits.tsx", hdr + pre + decl + "\n" + emits, '{"resolveType":true}')
+    w(f"types-cyc-grid/{cn}.defaults.tsx", hdr + pre + decl + "\nconst dyn = {};\n" + dflt, '{"resolveType":true,"optimize":true}')
+# the same positions with a perfectly legal type, as a control
+legal_t = "type T = { a: string; k: { j: number }; x?: T };"
+w("types-cyc-grid/legal.top.tsx", hdr + pre + legal_t + "\n" + "\n".join(f"const C{i} = defineComponent((p: {pos.replace('{T}', 'T')}) => {{}});" for i, pos in enumerate(positions)), '{"resolveType":true}')
+w("types-cyc-grid/legal.emits.tsx", hdr + pre + legal_t + "\n" + "\n".join(f"const C{i} = defineComponent((p: {{}}, c: SetupContext<{pos.replace('{T}', 'T')}>) => {{}});" for i, pos in enumerate(positions)), '{"resolveType":true}')
 print("generated under", os.path.normpath(root))
